@@ -34,6 +34,7 @@ type Scenario struct {
 	Status  int    `json:"status"`   // backend status for b4xx / b5xx (200 otherwise)
 	ErrBody string `json:"err_body"` // json | text : body kind of a backend error answer
 	Salt    string `json:"salt"`
+	SlowMs  int    `json:"slow_ms,omitempty"` // the backend only fails / answers after this long (the failure becomes known late)
 }
 
 type Obs struct {
@@ -109,14 +110,24 @@ func run(sc *Scenario) *Obs {
 		case "refuse":
 			b.Refuse()
 		case "reset0", "close0", "garbage":
-			b.SetBehaviour(stack.Behaviour{Kind: kind})
+			if sc.SlowMs > 0 && kind == "close0" {
+				b.SetBehaviour(stack.Behaviour{Kind: "stall0", StallMs: sc.SlowMs}) // accepts the request, says nothing, closes late
+			} else {
+				b.SetBehaviour(stack.Behaviour{Kind: kind})
+			}
 		case "b4xx", "b5xx":
 			body, ct := backendErrBody(sc.ErrBody, sc.Status)
 			b.SetScript(func(int, *stack.Seen) stack.Behaviour {
 				smu.Lock()
 				sent, sentCT = body, ct
 				smu.Unlock()
-				return stack.Behaviour{Kind: "ok", Status: sc.Status, Headers: [][2]string{{"Content-Type", ct}, {"X-Backend", name}}, Body: body}
+				bh := stack.Behaviour{Kind: "ok", Status: sc.Status, Headers: [][2]string{{"Content-Type", ct}, {"X-Backend", name}}, Body: body}
+				if sc.SlowMs > 0 {
+					gate := make(chan struct{})
+					time.AfterFunc(time.Duration(sc.SlowMs)*time.Millisecond, func() { close(gate) })
+					bh.Gate = gate
+				}
+				return bh
 			})
 		case "malformed":
 			b.SetScript(func(_ int, sn *stack.Seen) stack.Behaviour {
@@ -186,7 +197,7 @@ func run(sc *Scenario) *Obs {
 		body = []byte(fmt.Sprintf(`{"model":%q,"stream":%v,"messages":[]}`, model, sc.Stream))
 	}
 	raw := stack.Request("POST", path, s.Addr, [][2]string{{"Content-Type", "application/json"}, {"anthropic-version", "2023-06-01"}, {"X-Verif-Token", sc.Salt}}, body, false)
-	r := stack.Do(s.Addr, raw, 2*time.Second) // the wall-clock bound of the property
+	r := stack.Do(s.Addr, raw, 2*time.Second+time.Duration(sc.SlowMs)*time.Millisecond) // the wall-clock bound of the property (after the backend's own delay)
 	obs.Err, obs.Status, obs.Ms = r.Err, r.Status, r.Ms
 	obs.CT = anth.Header1(r, "Content-Type")
 	obs.Mode = anth.Header1(r, "X-Olla-Mode")
@@ -260,6 +271,10 @@ func main() {
 					if tier == "thorough" {
 						statuses4 = []int{400, 401, 403, 404, 413, 422, 429}
 						statuses5 = []int{500, 501, 502, 503, 504}
+					}
+					if route == "anthropic" { // failures that only become known after a long silence of the backend
+						add(Scenario{Fault: "close0", Route: route, Stream: stream, Engine: engine, N: 1, Status: 200, SlowMs: 16500})
+						add(Scenario{Fault: "b5xx", Route: route, Stream: stream, Engine: engine, N: 1, Status: 503, ErrBody: "json", SlowMs: 16500})
 					}
 					for _, shape := range []string{"emptyobj", "nochoices", "error200", "legacy"} {
 						add(Scenario{Fault: "malformed", Route: route, Stream: stream, Engine: engine, N: 1, Status: 200, ErrBody: shape})
